@@ -21,6 +21,8 @@ props/C11.v are about the same functions on R, tied by theory/DistTransfer.v).
    clause; else the mirror differs without a property-violating input (found=False).
 """
 from fractions import Fraction as F
+import os
+import time
 from concurrent.futures import ThreadPoolExecutor
 import vlib
 from vlib import q, nat, natlist, coqlist
@@ -232,25 +234,28 @@ Definition it (k : @kind Q nat) : list (nat * Q) := @items Q NumQ nat E k.
 Definition fn (l : list nat) (k : nat) : nat := nth k l 0%nat.
 Definition fq (l : list Q) (k : nat) : Q := nth k l 0.
 Definition fk (l : list (list (nat * Q))) (k : nat) : list (nat * Q) := nth k l [].
+Definition oq (x : Q) := (Z.ltb (Qnum x) 0, Z.abs (Qnum x), Z.pos (Qden x)).
+Definition od {K} (d : list (K * Q)) := map (fun kv => (fst kv, oq (snd kv))) d.
 Definition view (k : @kind Q nat) (probes : list nat) :=
   let d := it k in
-  (d, map (@kprob Q NumQ nat E k) probes, @mass Q NumQ nat d,
+  (od d, map (fun e => oq (@kprob Q NumQ nat E k e)) probes, oq (@mass Q NumQ nat d),
    @is_normalized Q NumQ nat (1#100000) (1#100000000) d).
 Definition run_case (k1 k2 : @kind Q nat) (probes f : list nat) (kern : list (list (nat * Q)))
     (w g : list Q) (a b : Q) (es : option (list nat)) (draws : list (Q * nat)) :=
   let d1 := it k1 in let d2 := it k2 in
-  let es' := match es with Some l => l | None => @common Q NumQ nat E d1 d2 end in
+  let es' := match es with Some l => l | None => @common Q nat E d1 d2 end in
+  let ca := @condition_acc Q NumQ nat E (fq w) d1 in
   (0%nat, view k1 probes, view k2 probes,
-   @marginalize Q NumQ nat nat E (fn f) d1,
-   @chain Q NumQ nat nat E (fk kern) d1,
-   (@condition Q NumQ nat E (fq w) d1, @condition_acc Q NumQ nat E (fq w) d1),
-   @joint Q NumQ nat nat E E d1 d2,
-   @mix Q NumQ nat E (@scale Q NumQ nat E d1 a) (@scale Q NumQ nat E d2 b),
-   @scale Q NumQ nat E d1 a,
-   (@conj_on Q NumQ nat E es' d1 d2, @common Q NumQ nat E d1 d2,
-    @psum Q NumQ (map (fun e => Qred (@prob Q NumQ nat E d1 e * @prob Q NumQ nat E d2 e)) es')),
-   @expectation Q NumQ nat (fq g) d1,
-   @normalize Q NumQ nat E d1,
+   od (@marginalize Q NumQ nat nat E (fn f) d1),
+   od (@chain Q NumQ nat nat E (fk kern) d1),
+   (od (@condition Q NumQ nat E (fq w) d1), (od (fst ca), oq (snd ca))),
+   od (@joint Q NumQ nat nat E E d1 d2),
+   od (@mix Q NumQ nat E (@scale Q NumQ nat E d1 a) (@scale Q NumQ nat E d2 b)),
+   od (@scale Q NumQ nat E d1 a),
+   (od (@conj_on Q NumQ nat E es' d1 d2), @common Q nat E d1 d2,
+    oq (@psum Q NumQ (map (fun e => Qred (@prob Q NumQ nat E d1 e * @prob Q NumQ nat E d2 e)) es'))),
+   oq (@expectation Q NumQ nat (fq g) d1),
+   od (@normalize Q NumQ nat E d1),
    map (fun ui => @ksample Q NumQ nat E k1 (fst ui) (snd ui)) draws).
 """
 
@@ -501,6 +506,15 @@ def run_softmax(ctx, jobs):
 # ---------------------------------------------------------------------------
 # comparison
 # ---------------------------------------------------------------------------
+def unq(x):
+    """(negative?, |numerator|, denominator) printed by the model -> Fraction"""
+    return F(-int(x[1]) if x[0] else int(x[1]), int(x[2]))
+
+
+def unq_items(l):
+    return [(x[0], unq(x[1])) for x in l]
+
+
 def cmp_items(py, model, stats, joint=False):
     """py: [[enc event, fj]] from msdm; model: [(id, Fraction)] (joint: (a, b, Fraction)).
     Returns None if equal as (event, probability) sets within TOL, else a description."""
@@ -538,13 +552,16 @@ def cmp_items(py, model, stats, joint=False):
 
 def run(ctx):
     tier = ctx.tier
-    ncases = 420 if tier == "quick" else 4200
+    ncases = int(os.environ.get("C11_CASES", 300 if tier == "quick" else 4000))
+    t0 = time.time()
+    timing = {}
     if ctx.replay_case:
         cases = [ctx.replay_case["detail"]["case"]]
     else:
         cases = [gen_case(ctx.rng) for _ in range(ncases)]
     impl = ctx.impl("c11_impl.py", {"cases": cases}, shards=min(ctx.jobs, 4 if tier == "quick" else 16))["results"]
 
+    timing["impl_s"] = round(time.time() - t0, 1)
     stats = {"exact": 0, "inexact": 0, "order_drift": 0}
     cnt = {"out_of_quantifier": 0, "table_prob_nonmember_tuple_probes": 0,
            "table_prob_nonmember_tuple_anomalies": 0, "boundary_draws": 0, "float_boundary_ambiguous": 0,
@@ -612,7 +629,9 @@ def run(ctx):
     with ThreadPoolExecutor(max_workers=2) as ex:
         fut_sm = ex.submit(run_softmax, ctx, sm_jobs)
         vals = ctx.coq(PRE, terms, shard=max(10, len(terms) // max(1, ctx.jobs) + 1) if tier == "quick" else 120)
+        timing["model_s"] = round(time.time() - t0 - timing["impl_s"], 1)
         sm_failed, ngoals = fut_sm.result()
+        timing["model_and_interval_s"] = round(time.time() - t0 - timing["impl_s"], 1)
     cnt["softmax_goals"] = ngoals
     for (i, nm) in sorted(sm_failed):
         sp = cases[i][nm] if nm != "kern" else None
@@ -626,8 +645,18 @@ def run(ctx):
         if isinstance(v, vlib.CoqError):
             viol("C11:coq-evaluation-failed", i, {"error": str(v)[:800]}, False)
             continue
-        (_, v1, v2, m_marg, m_chain, (m_cond, (m_kept, m_norm)), m_joint, m_mix, m_rmul,
-         (m_and, m_common, m_N), m_exp, m_normz, m_draws) = v
+        try:
+            (_, v1, v2, m_marg, m_chain, (m_cond, (m_kept, m_norm)), m_joint, m_mix, m_rmul,
+             (m_and, m_common, m_N), m_exp, m_normz, m_draws) = v
+            v1 = (unq_items(v1[0]), [unq(x) for x in v1[1]], unq(v1[2]), v1[3])
+            v2 = (unq_items(v2[0]), [unq(x) for x in v2[1]], unq(v2[2]), v2[3])
+            m_marg, m_chain, m_cond, m_kept = map(unq_items, (m_marg, m_chain, m_cond, m_kept))
+            m_mix, m_rmul, m_and, m_normz = map(unq_items, (m_mix, m_rmul, m_and, m_normz))
+            m_joint = [(x[0], x[1], unq(x[2])) for x in m_joint]
+            m_norm, m_N, m_exp = unq(m_norm), unq(m_N), unq(m_exp)
+        except (TypeError, ValueError, IndexError) as ex:
+            viol("C11:coq-evaluation-failed", i, {"error": "unexpected shape of the model value: %r" % (ex,)}, False)
+            continue
         distinct.add(vlib.structural_hash([case["d1"], case["d2"], case["_proj_ids"], case["_like"], case["kern"]]))
         problems = {}       # op -> description of the mirror difference
 
@@ -767,7 +796,7 @@ def run(ctx):
         "samples": [{"case": {k: v for k, v in cases[0].items() if k != "universe"}, "impl": impl[0]}] if cases else [],
         "cases": len(cases), "distributions_by_kind": kinds_count, "kind_pairs": pair_count,
         "probabilities_bit_exact": stats["exact"], "probabilities_within_tolerance": stats["inexact"],
-        "order_drift": stats["order_drift"], "tolerance": str(TOL),
+        "order_drift": stats["order_drift"], "tolerance": str(TOL), "timing": timing,
         "extra_obligations": cnt["softmax_goals"], "extra_discharged": cnt["softmax_goals"] - len(sm_failed),
         **cnt,
     })
